@@ -49,8 +49,9 @@ class TransferCase:
     """One world, one or more consecutive transactions, optional cancels / write rejections."""
 
     def __init__(self, cfg: Cfg, datas, faults=(), cancel=None, reject_round=None, extra_sm=0, max_rounds=150,
-                 tag="tc"):
+                 tag="tc", per_tx_req=None):
         self.cfg, self.datas, self.faults = cfg, datas, list(faults)
+        self.per_tx_req = per_tx_req       # request-level (mode, closure) per transaction on the same handlers
         self.cancel, self.reject_round, self.extra_sm, self.max_rounds, self.tag = cancel, reject_round, extra_sm, max_rounds, tag
         self.results = []
 
@@ -61,13 +62,16 @@ class TransferCase:
                 "limits": (c.ack_limit, c.nak_limit, c.check_limit), "disposition": c.disposition, "ind": c.ind,
                 "sizes": [None if d is None else len(d) for d in self.datas],
                 "faults": [(f.direction, f.index, f.kind, f.arg) for f in self.faults],
-                "cancel": self.cancel, "reject_round": self.reject_round, "extra_sm": self.extra_sm}
+                "cancel": self.cancel, "reject_round": self.reject_round, "extra_sm": self.extra_sm,
+                "per_tx_req": self.per_tx_req}
 
     def run(self, hooks=()):
         w = World(self.cfg, self.tag)
         self.world = w
         try:
             for ti, data in enumerate(self.datas):
+                if self.per_tx_req is not None:
+                    w.cfg.req_mode, w.cfg.req_closure = self.per_tx_req[ti]
                 ret, exc = start_transfer(w, data)
                 r = Runner(w, self.faults if ti == 0 else (), max_rounds=self.max_rounds, extra_sm=self.extra_sm)
                 r.hooks = list(hooks)
@@ -122,7 +126,11 @@ def rand_transfer_case(rng, faults_max=3, allow_cancel=True, allow_reject=True, 
     if allow_cancel and rng.random() < 0.2:
         cancel = (rng.choice(["src", "dst"]), rng.randint(0, 6), rng.random() < 0.85)
     reject = rng.randint(0, 4) if (allow_reject and rng.random() < 0.1) else None
-    return TransferCase(cfg, datas, rand_faults(rng, nf), cancel, reject, extra_sm=rng.choice([0, 0, 0, 1, 2]))
+    per_tx = None
+    if nt > 1 and rng.random() < 0.7:
+        per_tx = [(rng.choice([None, 0, 1]), rng.choice([None, True, False])) for _ in range(nt)]
+    return TransferCase(cfg, datas, rand_faults(rng, nf), cancel, reject, extra_sm=rng.choice([0, 0, 0, 1, 2]),
+                        per_tx_req=per_tx)
 
 
 # ------------------------------------------------------------------ hostile single-handler streams
